@@ -278,6 +278,25 @@ class FnTranslator:
             if a[1] == 'B' and b[1] == 'B' and isinstance(op, (ast.Eq, ast.NotEq)):
                 t = '(Bool.eqb %s %s)' % (a[0], b[0])
                 return (t if isinstance(op, ast.Eq) else '(negb %s)' % t, 'B')
+            if (a[1] in ('OQ', 'OZ') or b[1] in ('OQ', 'OZ')) and a[1] in ('Z', 'Q', 'OQ', 'OZ') and b[1] in ('Z', 'Q', 'OQ', 'OZ') \
+                    and isinstance(op, (ast.Lt, ast.LtE, ast.Gt, ast.GtE, ast.Eq, ast.NotEq)):
+                # [loop ties C16-C18] comparison of an optional number (a float that may be NaN, consistent with the
+                # NaN-propagating arithmetic of `lift`): IEEE / numpy / Python -- every ordered comparison and == with NaN
+                # is False, != is True; on present operands it is the plain comparison (translated by the code below)
+                env2, binds = dict(env), []
+                for side, v in (('cmp_l__', a), ('cmp_r__', b)):
+                    if v[1] in ('OQ', 'OZ'):
+                        nm = self.new('o')
+                        binds.append((v[0], nm))
+                        env2[side] = (nm, 'Q' if v[1] == 'OQ' else 'Z')
+                    else:
+                        env2[side] = v
+                term = self.expr(ast.Compare(left=ast.Name(id='cmp_l__', ctx=ast.Load()), ops=[op],
+                                             comparators=[ast.Name(id='cmp_r__', ctx=ast.Load())]), env2)[0]
+                nan = 'true' if isinstance(op, ast.NotEq) else 'false'
+                for src, nm in reversed(binds):
+                    term = '(match %s with Some %s => %s | None => %s end)' % (src, nm, term, nan)
+                return (term, 'B')
             x, y, ty = self.num2(a, b)
             if ty == 'Z':
                 tbl = {ast.Lt: '(Z.ltb %s %s)', ast.LtE: '(Z.leb %s %s)', ast.Eq: '(Z.eqb %s %s)',
